@@ -9,7 +9,7 @@ ID = "C15"
 RULE = ("Mode G: EVERY validated model of the plog families (explicit and generated ids, integer leaves, connective structures) x a fixed "
         "alphabet of objective dictionaries (empty, single, mixed signs, a sub-proposition id, an unknown id) and EVERY configurator of the "
         "C14 space x the priority alphabet, each x the environment answers of the solver callable {exact optimum by brute force, tagged "
-        "vector 10+j, None, raises one of 10 exception shapes (with message, without arguments, several arguments)} (non-default answers are the deviations) x include_virtual_variables x try_reduce_before (solve) / only_leafs (select). oracle: callable gets "
+        "vector 10+j, None, raises one of 10 exception shapes (with message, without arguments, several arguments)} (non-default answers are the deviations), the solver also as a falsy callable object (first 12 models per family), single-objective and empty batches, the caller's dictionaries unchanged, x include_virtual_variables x try_reduce_before (solve) / only_leafs (select). oracle: callable gets "
         "the asserted polyhedron (equal to a separately built one) and one objective per request with entry j = weight of column j's id "
         "(solve) resp. shadow compression of [default_prio_vector; u] with u built by id (select); reported dictionaries map every column "
         "id to the value at that column minus generated helpers / non-leafs; exact answers are optimal over the brute-force feasible set "
